@@ -16,6 +16,7 @@ import (
 	"time"
 
 	"verif/harness/evid"
+	"verif/harness/oracle"
 	"verif/harness/rig"
 
 	"github.com/attestantio/dirk/core"
@@ -326,6 +327,13 @@ func (e *c06Env) runCase(r *rand.Rand, kind string, n int, via Via, faults map[s
 	e.ctl.set(active, names)
 	var res []core.Result
 	var sigs [][]byte
+	// What a signature at each position has to verify for (well-formed entries only).
+	type want struct {
+		pub  []byte
+		root [32]byte
+		ok   bool
+	}
+	wants := make([]want, n)
 	switch kind {
 	case "generic", "multi":
 		cs := make([]*GenCase, n)
@@ -337,6 +345,11 @@ func (e *c06Env) runCase(r *rand.Rand, kind string, n int, via Via, faults map[s
 			}
 			if l, ok := dataLen[i]; ok {
 				cs[i].Data.Data = cs[i].Data.Data[:l]
+			}
+		}
+		for i := range cs {
+			if len(cs[i].Data.Domain) == 32 && len(cs[i].Data.Data) == 32 {
+				wants[i] = want{cs[i].Key.Pub, cs[i].SigningRoot(), true}
 			}
 		}
 		if kind == "generic" {
@@ -354,6 +367,11 @@ func (e *c06Env) runCase(r *rand.Rand, kind string, n int, via Via, faults map[s
 				cs[i].Data.Domain = cs[i].Data.Domain[:l]
 			}
 		}
+		for i := range cs {
+			if len(cs[i].Data.Domain) == 32 {
+				wants[i] = want{cs[i].Key.Pub, cs[i].SigningRoot(), true}
+			}
+		}
 		if kind == "att" {
 			v, s := env.SignAtt(via, cs[0])
 			res, sigs = []core.Result{v}, [][]byte{s}
@@ -365,6 +383,9 @@ func (e *c06Env) runCase(r *rand.Rand, kind string, n int, via Via, faults map[s
 		c.Addr = addrs[0]
 		if l, ok := domainLen[0]; ok {
 			c.Data.Domain = c.Data.Domain[:l]
+		}
+		if len(c.Data.Domain) == 32 {
+			wants[0] = want{c.Key.Pub, c.SigningRoot(), true}
 		}
 		v, s := env.SignProp(via, c)
 		res, sigs = []core.Result{v}, [][]byte{s}
@@ -408,6 +429,17 @@ func (e *c06Env) runCase(r *rand.Rand, kind string, n int, via Via, faults map[s
 		has := i < len(sigs) && len(sigs[i]) > 0
 		if has != (res[i] == core.ResultSucceeded) {
 			e.run.Violate(fmt.Sprintf("%s position %d: state %s with signature length %d (a signature iff SUCCEEDED)", kind, i, res[i], rec.SigLen[i]), rec)
+		}
+	}
+	// A fault at one position must not spoil what the other positions get: every signature that does come back is
+	// a signature of its own entry.
+	for i := range res {
+		if i < len(sigs) && len(sigs[i]) > 0 && i < len(wants) && wants[i].ok {
+			if ok, _ := oracle.VerifySig(wants[i].pub, wants[i].root[:], sigs[i]); !ok {
+				e.run.Violate(fmt.Sprintf("%s position %d of %d: the signature returned next to a faulted entry does not verify for its own account and data (faults %v)", kind, i, n, faults), rec)
+			} else {
+				e.run.Count("signatures_verified_beside_faults", 1)
+			}
 		}
 	}
 	for p, fs := range firedPos {
